@@ -379,6 +379,7 @@ Qed.
 Theorem match_entry_relaxed_refuted :
   xaccepted relaxed_table me_unbound_key = true /\ xaccepted go_table me_unbound_key = false.
 Proof. vm_compute. split; reflexivity. Qed.
+Print Assumptions match_entry_relaxed_refuted.
 
 (* the hypothesis "not bound by the atom itself" cannot be dropped (recorded finding N108):
    p0(X) :- :list:member(X, fn:list(X, 2)).  is accepted, X is used inside the input argument *)
